@@ -295,8 +295,22 @@ func (c *Ctx) declCtx() {
 	c.sc.declareFun("ctx.ref", []string{sInt, sStr}, sInt)
 }
 
-func constArray(sort string, v T) T {
-	return "((as const " + sort + ") " + v + ")"
+// constArr: the constant array. cvc5 only accepts literal values in
+// `(as const ...)`, so arrays of the (uninterpreted) string sort are fresh
+// constants with a quantified definition.
+func (c *Ctx) constArr(sort string, v T) T {
+	if v == "false" || v == "true" || isNumeral(v) {
+		return "((as const " + sort + ") " + v + ")"
+	}
+	key := "constarr:" + sort + ":" + v
+	if n, ok := c.witnesses[key]; ok {
+		return n
+	}
+	n := c.sc.fresh("constarr", sort)
+	ks, _ := innerSort(sort)
+	c.sc.assume(fmt.Sprintf("(forall ((i %s)) (! (= (select %s i) %s) :pattern ((select %s i))))", ks, n, v, n))
+	c.witnesses[key] = n
+	return n
 }
 
 func isNumeral(t T) bool {
